@@ -22,6 +22,8 @@ func main() {
 		os.Exit(runArchiveReplay(os.Args[2:]))
 	case "index-replay":
 		os.Exit(runIndexReplay(os.Args[2:]))
+	case "transform-replay":
+		os.Exit(runTransformReplay(os.Args[2:]))
 	case "hashfuzz":
 		os.Exit(runHashFuzz(os.Args[2:]))
 	case "reader-replay":
